@@ -62,36 +62,41 @@ def _fn_of(an: Analysis, node: ast.AST) -> FunctionInfo | None:
 def check(an: Analysis) -> None:
     prog = an.prog
     mod = prog.module(MOD)
-    meta = prog.cls(f"{MOD}.MissingType")
     cls = prog.cls(f"{MOD}.Missing")
+    meta = prog.classes.get(f"haiway.{MOD}.MissingType")
 
-    # ------------------------------------------------------------------ C20.1 metaclass __call__
-    call = prog.fn(f"{MOD}.MissingType.__call__")
+    # ------------------------------------------------------------------ C20.1 singleton mechanism (metaclass __call__, or __new__)
+    if meta is not None:
+        call = prog.fn(f"{MOD}.MissingType.__call__")
+        where = f"{MOD}.MissingType.__call__"
+    else:
+        call = cls.method("__new__")
+        where = f"{MOD}.Missing.__new__"
+        if call is None:
+            raise AnalysisError("C20.1: neither the MissingType metaclass nor Missing.__new__ implements the singleton")
     g = an.cfg(call)
-    ob = an.ob("C20.1", "K8", "MissingType.__call__ returns cls._instance on every path; the only store to _instance is guarded by `cls._instance is None`", [f"{MOD}.MissingType.__call__"])
+    ob = an.ob("C20.1", "K8", "the singleton mechanism (MissingType.__call__, or Missing.__new__) returns cls._instance on every path; the only store to _instance is guarded by `cls._instance is None`", [where])
     recv = (call.node.args.posonlyargs + call.node.args.args)[0].arg
     rets = [n for n in g.nodes if n.kind == "return"]
     if not rets:
-        ob.fail(call, None, "__call__ returns nothing")
+        ob.fail(call, None, f"{call.name} returns nothing")
     for r in rets:
         ob.inst(call, r.ast)
         if dotted(r.ast.value) != f"{recv}._instance":  # type: ignore[union-attr]
             ob.fail(call, r.ast, "returns something else than the cached instance")
-    if call.node.args.args[1:] or call.node.args.vararg or call.node.args.kwarg or call.node.args.kwonlyargs:
-        ob.note("__call__ accepts arguments")
     stores = [n for n in g.nodes if n.kind == "stmt" and isinstance(n.ast, (ast.Assign, ast.AnnAssign)) and any(dotted(t) == f"{recv}._instance" for t in (n.ast.targets if isinstance(n.ast, ast.Assign) else [n.ast.target]))]
-    for s in stores:
-        ob.inst(call, s.ast, "store")
+    for s_ in stores:
+        ob.inst(call, s_.ast, "store")
 
         def env(e: ast.AST):
             if dotted(e) == f"{recv}._instance":
-                return _OBJ  # already created
+                return _OBJ  # already created (and, being Missing, falsy)
             return NOVALUE
 
-        w = g.search([g.entry], lambda n, s=s: n is s, skip_edge=scenario(g, env))
+        w = g.search([g.entry], lambda n, s_=s_: n is s_, skip_edge=scenario(g, env))
         if w is not None:
-            ob.fail(call, s.ast, "the cached instance can be replaced after it was created", CFG.show_path(w))
-    # stores to _instance anywhere else in the package
+            ob.fail(call, s_.ast, "the cached instance can be replaced after it was created (note: the instance is falsy - a truthiness test does not detect it)", CFG.show_path(w))
+    owners = {cls.qualname} | ({meta.qualname} if meta is not None else set())
     for fi in prog.functions.values():
         if fi is call:
             continue
@@ -101,11 +106,12 @@ def check(an: Analysis) -> None:
                 for t in tg:
                     if isinstance(t, ast.Attribute) and t.attr == "_instance":
                         ty = prog.expr_type(fi, t.value)
-                        if ty is not None and ty.name in (cls.qualname, meta.qualname):
-                            ob.fail(fi, n, "the singleton cache is written outside MissingType.__call__")
-    mc = next((k.value for k in cls.node.keywords if k.arg == "metaclass"), None)
-    if mc is None or prog.resolve_dotted(mod, mc) != meta.qualname:
-        ob.fail(None, cls.node, "class Missing no longer uses the MissingType metaclass", mod=mod, at=cls.qualname)
+                        if ty is not None and ty.name in owners:
+                            ob.fail(fi, n, "the singleton cache is written outside the singleton mechanism")
+    if meta is not None:
+        mc = next((k.value for k in cls.node.keywords if k.arg == "metaclass"), None)
+        if mc is None or prog.resolve_dotted(mod, mc) != meta.qualname:
+            ob.fail(None, cls.node, "class Missing no longer uses the MissingType metaclass", mod=mod, at=cls.qualname)
 
     # ------------------------------------------------------------------ C20.2 copy / deepcopy / pickle protocols
     ob = an.ob(
@@ -282,7 +288,7 @@ def check(an: Analysis) -> None:
             if isinstance(n, ast.Call):
                 fi = _fn_of(an, n)
                 r = prog.resolve_dotted(fi if fi is not None else m, n.func) if not (fi and isinstance(n.func, ast.Name) and prog.is_local(fi, n.func.id)) else None
-                if r in (cls.qualname, meta.qualname):
+                if r in (cls.qualname, meta.qualname if meta is not None else cls.qualname):
                     sites += 1
                     if (fi is not None and fi is red) or (fi is not None and fi.cls is cls and fi.name in ("__copy__", "__deepcopy__", "__reduce__", "__reduce_ex__")):
                         continue
@@ -308,4 +314,11 @@ def check(an: Analysis) -> None:
         ob.fail(None, defs[1] if len(defs) > 1 else None, f"MISSING is bound {len(defs)} times at module level", mod=mod)
 
 
-_OBJ = object()
+class _Falsy:
+    """stands for the existing Missing instance in scenarios: it is an object, and it is falsy"""
+
+    def __bool__(self) -> bool:
+        return False
+
+
+_OBJ = _Falsy()
